@@ -40,6 +40,7 @@ class Explorer:
         self.seed = 0
         self.rng = random.Random(0)
         self.decide_budget = None
+        self.exact_close = False  # jnp.isclose / allclose read as exact equality (harness option "exact_close")
         self.start_path([])
         self.tot = self._zero_tot()
 
@@ -108,11 +109,81 @@ class Explorer:
     def _base(self):
         return list(core.CTX.assume) + list(self.pc)
 
-    def feasible(self, extra, timeout_ms=None):
+    def feasible(self, extra, timeout_ms=None, want_model=True):
+        """satisfiability of assumptions & path condition & extra.  Cheap SAT attempt first: the query with most free
+        input variables fixed to small random rationals (a model of the restricted query is a model of the full one;
+        `unsat` of a restricted query is never used).  Then z3 on the full query, then cvc5."""
         fs = self._base()
         if extra is not True:
             fs.append(extra)
-        return smt.solve(fs, timeout_ms or self.timeout_ms, seed=self.seed)
+        return self._solve(fs, timeout_ms or self.timeout_ms, want_model)
+
+    def _solve(self, fs, timeout_ms, want_model=True):
+        if any(g is False for g in fs):
+            return smt.solve(fs, timeout_ms, seed=self.seed)
+        r, m = self._concretised_sat(fs, tries=3, want_model=want_model)
+        if r == "sat":
+            self.tot["sat_by_concretisation"] = self.tot.get("sat_by_concretisation", 0) + 1
+            smt.STATS["queries"] += 1
+            smt.STATS["sat"] += 1
+            return r, m
+        return smt.solve(fs, timeout_ms, want_model=want_model, seed=self.seed)
+
+    def feasible_side(self, f):
+        """feasibility of one side of a branch"""
+        r, _ = self.feasible(f, self.feas_timeout_ms, want_model=False)
+        return r
+
+    def _concretised_sat(self, fs, tries=4, want_model=False):
+        ctx = core.CTX
+        # variables constrained by equalities of the path condition stay free, as do the dependent variables of
+        # normalised vectors (one per sphere) and all definitional variables
+        eq_vars = set()
+
+        def collect(g):
+            # equalities in positive position only (a negated equality is satisfied by generic values)
+            if isinstance(g, tuple):
+                if g[0] in ("and", "or"):
+                    for x in g[1]:
+                        collect(x)
+                elif g[0] == "cmp" and g[1] == "=":
+                    eq_vars.update(g[2].vars())
+
+        n_assume = len(core.CTX.assume)
+        for g in fs[n_assume:]:  # the harness assumptions (normalisation of input vectors) are handled via spheres
+            collect(g)
+        used = set()
+        for g in fs:
+            core.f_vars(g, used)
+        sphere_dep = {sph[-2] for sph in ctx.spheres if len(sph) >= 2}
+        cand = [v for v in sorted(used) if ctx.kind[v] == "free" and v not in eq_vars and v not in sphere_dep
+                and v not in ctx.rules]
+        angle_atoms = [(c, sn) for (_m, c, sn) in ctx.angles.values()
+                       if (c in used or sn in used) and c not in eq_vars and sn not in eq_vars]
+        if not cand and not angle_atoms:
+            return "unknown", None
+        n = max(4, len(cand))
+        for t in range(tries):
+            extra = []
+            if t < 2:
+                # angles: a random rational point of the unit circle (keeps the solver from picking boundary values)
+                for c, sn in angle_atoms:
+                    u = Fraction(self.rng.randint(-12, 12), self.rng.choice([3, 5, 7]))
+                    den = 1 + u * u
+                    extra.append(("cmp", "=", Poly.var(c) - Poly.const((1 - u * u) / den)))
+                    extra.append(("cmp", "=", Poly.var(sn) - Poly.const(2 * u / den)))
+            # the first try fixes everything it may, later tries leave a few variables to the solver
+            keep = set(self.rng.sample(cand, min(len(cand), 3))) if t >= 1 else set()
+            for v in cand:
+                if v in keep:
+                    continue
+                # small values keep the sum of squares of a normalised vector below one
+                val = Fraction(self.rng.randint(-3, 3), 4 * n) if self.rng.random() > 0.2 else Fraction(0)
+                extra.append(("cmp", "=", Poly.var(v) - Poly.const(val)))
+            r, m = smt.solve(fs + extra, 1500, want_model=want_model, seed=self.seed, portfolio=False, count=False)
+            if r == "sat":
+                return "sat", m
+        return "unknown", None
 
     # -- branching ---------------------------------------------------------
     def branch(self, f):
@@ -127,8 +198,8 @@ class Explorer:
                 return d == "T"
             return d == "t"  # forced decision: implied by pc, nothing to add
         self.tot["branches_decided"] += 1
-        rt, _ = self.feasible(f, self.feas_timeout_ms)
-        rf, _ = self.feasible(f_not(f), self.feas_timeout_ms)
+        rt = self.feasible_side(f)
+        rf = self.feasible_side(f_not(f))
         if rt == "unknown" or rf == "unknown":
             self.tot["unknown_feasibility"] += 1
             self.flags.add("unknown_feasibility")
@@ -267,9 +338,9 @@ class Explorer:
         for start in range(0, len(nz), 24):
             neg = f_or(*[f_cmp(p, "!=") for p in nz[start:start + 24]])
             fs = self._base() + [neg]
-            r, model = smt.solve(fs + list(core.CTX.physical), self.timeout_ms, seed=self.seed)
+            r, model = self._solve(fs + list(core.CTX.physical), self.timeout_ms)
             if r == "unsat" and core.CTX.physical:
-                r, model = smt.solve(fs, self.timeout_ms, seed=self.seed)
+                r, model = self._solve(fs, self.timeout_ms)
                 if r == "sat":
                     self.tot["nonphysical_models"] = self.tot.get("nonphysical_models", 0) + 1
                     self.flags.add("nonphysical_model")
@@ -498,7 +569,7 @@ class Explorer:
         r, model = self.feasible(neg)
         if r == "sat" and core.CTX.physical:
             # contents quantified over a superset of the states: look for a counterexample that is a valid state
-            r2, m2 = smt.solve(self._base() + [neg] + list(core.CTX.physical), self.timeout_ms, seed=self.seed)
+            r2, m2 = self._solve(self._base() + [neg] + list(core.CTX.physical), self.timeout_ms)
             if r2 == "sat":
                 model = m2
             else:
